@@ -286,8 +286,9 @@ def to_spec(cfg, v):
     if k == "float":
         return f2b(v)
     if k == "decimal":
+        # a value with at most dc places is its scaled integer; a range *bound* with more places is
+        # prepared by truncation towards zero (exact behaviour: theorem range_query_decimal)
         m = v * (10 ** cfg["dc"])
-        assert m == m.to_integral_value()
         return int(m)
     if k == "datetime":
         return dt_long(v)
@@ -358,12 +359,34 @@ def gen_interval(rng, cfg, flat):
             w = neighbour(rng, cfg, v)
             if in_domain(cfg, w):
                 v = w
+        if cfg["kind"] == "decimal" and rng.random() < 0.15:
+            # more places than the field keeps (either direction; still inside the domain after truncation)
+            extra = rng.choice([1, 2])
+            w = v + Decimal(rng.randint(1, 10 ** extra - 1)).scaleb(-cfg["dc"] - extra) * rng.choice([-1, 1])
+            if in_domain(cfg, w):
+                v = w
         return v
     a, b = end(), end()
     if a is not None and b is not None and rng.random() < 0.85:
         if to_spec_key(cfg, a) > to_spec_key(cfg, b):
             a, b = b, a
+    if a is not None and rng.random() < 0.12:
+        # bounds that compare equal as Python numbers: the same value, or (floats) its twin with a
+        # different encoding (the two zeros), in both orders
+        a, b = twin_bounds(rng, cfg, a)
+        return a, b, rng.random() < 0.25, rng.random() < 0.25
     return a, b, rng.random() < 0.4, rng.random() < 0.4
+
+
+def twin_bounds(rng, cfg, v):
+    """(start, end) that are equal under Python's `==`: (v, v), or for a float field in half of the cases
+    the two zeros (the only doubles that are == with different sortable encodings), in either order."""
+    if cfg["kind"] == "float" and (v == 0 or rng.random() < 0.5):
+        z = [0.0, -0.0] if cfg["signed"] else [0.0, 0.0]
+        if rng.random() < 0.5:
+            z.reverse()
+        return z[0], z[1]
+    return v, v
 
 
 def to_spec_key(cfg, v):
